@@ -51,10 +51,29 @@ func (x *exec) varScope(st *pstate) *scope {
 // ---- loops
 
 func (x *exec) loopSpec(ord int) *spec.LoopSpec {
-	if ls, ok := x.c.C.Loops[ord]; ok {
-		return ls
+	ls, ok := x.c.C.Loops[ord]
+	if !ok {
+		ls = &spec.LoopSpec{}
 	}
-	return &spec.LoopSpec{}
+	// `for i := range s` loops: the hidden index starts at -1 and is incremented before the test;
+	// that it never gets below -1 is an invariant nobody wants to write down (it is checked like any other)
+	for h, o := range x.loopOrd {
+		if o != ord {
+			continue
+		}
+		for _, in := range h.Instrs {
+			if phi, isPhi := in.(*ssa.Phi); isPhi && phi.Comment == "rangeindex" {
+				implicit := &spec.Clause{Label: "rangeindex", Text: "(implicit) -1 <= rangeindex && rangeindex < 1<<62",
+					E: &spec.Binary{Op: "&&",
+						X: &spec.Binary{Op: "<=", X: &spec.Unary{Op: "-", X: &spec.IntLit{Text: "1"}}, Y: &spec.Ident{Name: "rangeindex"}},
+						Y: &spec.Binary{Op: "<", X: &spec.Ident{Name: "rangeindex"}, Y: &spec.IntLit{Text: "4611686018427387904"}}}}
+				n := &spec.LoopSpec{Decreases: ls.Decreases}
+				n.Invariants = append(append([]*spec.Clause{}, ls.Invariants...), implicit)
+				return n
+			}
+		}
+	}
+	return ls
 }
 
 func (x *exec) phiEdgeValues(st *pstate, b, pred *ssa.BasicBlock) ([]*ssa.Phi, []Val) {
@@ -79,6 +98,9 @@ func (x *exec) phiEdgeValues(st *pstate, b, pred *ssa.BasicBlock) ([]*ssa.Phi, [
 
 func (x *exec) enterLoop(st *pstate, b, pred *ssa.BasicBlock, ord int) {
 	ls := x.loopSpec(ord)
+	if x.p.T.ownedDecl != nil {
+		x.loopGuardOwned(b)
+	}
 	phis, vals := x.phiEdgeValues(st, b, pred)
 	for i, phi := range phis {
 		st.vals.m[phi] = vals[i]
@@ -248,6 +270,8 @@ type target struct {
 	elem  types.Type
 	guard *smt.Term // the write happens only under this condition (nil = always)
 	heaps []leaf    // or whole leaf heaps (allof)
+	heapOf    types.Type // allof: the struct type ...
+	heapField int        // ... and field whose heaps these are
 }
 
 func (x *exec) evalAssign(ev *Eval, a spec.Expr) target {
@@ -262,7 +286,7 @@ func (x *exec) evalAssign(ev *Eval, a spec.Expr) target {
 			f := si.Fields[inner.loc.Path[0].Field]
 			var ls []leaf
 			x.env.leafNames("H$"+si.Sort.Name+"."+sanitize(f.Name()), x.p.T.SortOf(f.Type()), &ls)
-			return target{heaps: ls}
+			return target{heaps: ls, heapOf: inner.loc.Root, heapField: inner.loc.Path[0].Field}
 		}
 		if id, ok := c.Fun.(*spec.Ident); ok && (id.Name == "spare" || id.Name == "content" || id.Name == "backing") {
 			v := ev.Eval(c.Args[0])
@@ -358,11 +382,29 @@ func (x *exec) havocTarget(st *pstate, t target) {
 // covered: the write target t is permitted by the function's own assigns clause (evaluated at entry).
 func (x *exec) covered(st *pstate, t target) *smt.Term {
 	var alts []*smt.Term
+	if x.monitor != nil && !x.monitor.holdsLock {
+		return smt.True // see monitorCovers
+	}
 	if t.heaps != nil {
-		if x.monitor != nil {
+		if x.monitor != nil && !x.monitor.holdsLock {
 			return smt.True
 		}
-		return smt.False
+		// every leaf heap must be named by an allof() entry of the function's own assigns clause
+		allowed := map[string]bool{}
+		entrySt := &pstate{State: &State{heap: x.old}}
+		ev := x.evalAt(entrySt, x.entry)
+		ev.Heap, ev.Old = x.old, x.old
+		for _, a := range x.c.C.Assigns {
+			for _, lf := range x.evalAssign(ev, a).heaps {
+				allowed[lf.name] = true
+			}
+		}
+		for _, lf := range t.heaps {
+			if !allowed[lf.name] {
+				return smt.False
+			}
+		}
+		return smt.True
 	}
 	// freshly allocated memory is always writable
 	if t.loc != nil {
@@ -392,6 +434,15 @@ func (x *exec) covered(st *pstate, t target) *smt.Term {
 
 // matchTarget: allowed (from the assigns clause) covers written.
 func matchTarget(allowed, written target) *smt.Term {
+	if allowed.heaps != nil {
+		// allof(p.f) covers the field f of every object
+		if written.loc != nil && written.loc.Kind == LRoot && len(written.loc.Path) >= 1 && written.loc.Path[0].Idx == nil && allowed.heapOf != nil {
+			if types.Identical(allowed.heapOf, written.loc.Root) && allowed.heapField == written.loc.Path[0].Field {
+				return smt.True
+			}
+		}
+		return smt.False
+	}
 	switch {
 	case allowed.loc != nil && written.loc != nil:
 		a, w := allowed.loc, written.loc
@@ -490,6 +541,9 @@ func (x *exec) applyContract(st *pstate, c *Contract, callee *ssa.Function, args
 		}
 	}
 	ci := callInfo{names: contractParamNames(c, callee), sig: callee.Signature, name: callee.Name(), key: FuncKey(callee), tparams: tparams}
+	if !c.C.Trusted && origin.Pkg != nil && x.fn.Pkg != nil && origin.Pkg != x.fn.Pkg {
+		x.p.Assumptions["contract of "+ci.key+" is used as given; it is discharged by the check of its own package"] = true
+	}
 	return x.applyContractInfo(st, c, ci, args, argTypes, in)
 }
 
@@ -499,21 +553,49 @@ func (x *exec) applyContractInfo(st *pstate, c *Contract, ci callInfo, args []Va
 	if len(names) != len(args) {
 		panic(specErr{fmt.Sprintf("%s: contract of %s has %d parameters, call has %d arguments", c.C.Pos, c.C.Key(), len(names), len(args))})
 	}
-	if len(c.C.Ghost) > 0 {
-		unsupp("call to %s whose contract has ghost parameters", c.C.Key())
-	}
 	if c.C.Trusted {
 		x.p.Trusted[ci.key] = true
 	}
 	sc := &scope{vars: map[string]SV{}}
 	mkEval := func(heap, old map[string]*smt.Term) *Eval {
-		return &Eval{P: x.p, Env: x.env, Pkg: c.Pkg, Heap: heap, Old: old, Scope: sc, TParams: tparams, Facts: func(t *smt.Term) { st.assume(t, "type invariant of a value read by a specification") }}
+		return &Eval{P: x.p, Env: x.env, Pkg: c.Pkg, Heap: heap, Old: old, Scope: sc, TParams: tparams, Facts: func(t *smt.Term) { st.assume(t, "type invariant of a value read by a specification") },
+			Owned: func(r *ownedRef) *smt.Term { return x.ownedTerm(st, r, in.Pos()) }, ufSeen: x.ufSeenOf(st)}
 	}
 	ev := mkEval(st.heap, st.heap)
 	for i, n := range names {
 		sc.vars[n] = ev.FromVal(args[i], argTypes[i])
 	}
 	ob := x.ord[in]
+	if len(c.C.Ghost) > 0 {
+		// ghost parameters are instantiated by a `callghost <ordinal> name = expr` clause of the caller's contract
+		ordinal := -1
+		fmt.Sscanf(ob, "call[%d]", &ordinal)
+		given := x.c.C.CallGhost[ordinal]
+		cev := x.evalAt(st, x.varScope(st))
+		cev.OldScope = x.entry
+		for _, g := range c.C.Ghost {
+			found := false
+			for _, ga := range given {
+				if ga.Name != g.Name {
+					continue
+				}
+				found = true
+				gt := ev.ResolveType(g.Type)
+				v := cev.Eval(ga.E)
+				v = cev.coerce(v, gt)
+				if v.T != nil && isUntypedNil(v.T) {
+					v = cev.nilOf(gt)
+				}
+				if v.T == nil || cev.term(v).Sort != x.p.T.SortOf(gt) {
+					panic(specErr{fmt.Sprintf("%s: ghost argument %s of %s has the wrong type", x.c.C.Pos, g.Name, ob)})
+				}
+				sc.vars[g.Name] = SV{T: gt, Term: cev.term(v)}
+			}
+			if !found {
+				unsupp("%s to %s needs the ghost argument %s (add `callghost %d %s = ...` to the contract of %s)", ob, c.C.Key(), g.Name, ordinal, g.Name, x.c.C.Key())
+			}
+		}
+	}
 	for j, r := range c.C.Requires {
 		ev.Pos = r.Pos
 		lab := fmt.Sprintf("%s.pre[%d]", ob, j)
@@ -538,11 +620,54 @@ func (x *exec) applyContractInfo(st *pstate, c *Contract, ci callInfo, args []Va
 			_ = al
 		}
 		for _, a := range c.C.Assigns {
+			if id, isId := a.(*spec.Ident); isId {
+				if i := indexOf(names, id.Name); i >= 0 && x.p.T.OwnedOf(argTypes[i]) != nil {
+					continue // an owned structure modified in place: handled below
+				}
+			}
 			t := x.evalAssign(evPre, a)
 			if !x.c.C.Trusted {
 				x.frameCheckRange(st, t, in, ".assigns")
 			}
 			x.havocTarget(st, t)
+		}
+		if len(st.heapOwned) > 0 {
+			// handles of structures kept in heap cells: the call may change those cells
+			for k, r := range st.heapOwned {
+				if cell := x.ocell(st, r); cell.moved == "" && cell.fields == nil && cell.abs == r.init {
+					delete(st.heapOwned, k)
+				}
+			}
+		}
+	}
+	// owned structures handed to the callee
+	for i, n := range names {
+		r, isOwned := args[i].(*ownedRef)
+		if !isOwned {
+			continue
+		}
+		switch c.C.OwnedMode(n) {
+		case "consumes":
+			if r.view {
+				x.ownedViolation(st, in.Pos(), "a read-only view is passed to a consuming call")
+			}
+			x.markMoved(st, r, true, "passed to "+ci.name+", which consumes it")
+			st.epoch++
+		case "releases":
+			if r.view {
+				x.ownedViolation(st, in.Pos(), "a read-only view is passed to a releasing call")
+			}
+			cell := x.ocell(st, r)
+			cell.moved = "its node was released by " + ci.name
+			cell.fields, cell.abs = nil, nil
+			st.epoch++
+		case "assigns":
+			if r.view {
+				x.ownedViolation(st, in.Pos(), "a read-only view is passed to a call that modifies it")
+			}
+			nt := x.env.Fresh("now$"+n, x.p.T.SortOf(argTypes[i]))
+			x.setAbstract(st, r, nt)
+			sc.vars["now$"+n] = SV{T: argTypes[i], Term: nt}
 		}
 	}
 	// results
@@ -577,6 +702,9 @@ func (x *exec) applyContractInfo(st *pstate, c *Contract, ci callInfo, args []Va
 		st.assume(x.p.T.Inv(rv, rt, 0), "type invariant of result of "+ci.name)
 		x.assumeAllocated(st, rv, rt)
 		w := x.wrap(rv, rt)
+		if r, isOwned := w.(*ownedRef); isOwned && c.hasProp("view") {
+			r.view, r.epoch = true, st.epoch
+		}
 		results = append(results, w)
 		sv := post.FromVal(w, rt)
 		if i < len(cnames) && cnames[i] != "" && cnames[i] != "_" {
@@ -615,6 +743,15 @@ func (x *exec) applyContractInfo(st *pstate, c *Contract, ci callInfo, args []Va
 		return results[0]
 	}
 	return Tuple(results)
+}
+
+func indexOf(xs []string, s string) int {
+	for i, v := range xs {
+		if v == s {
+			return i
+		}
+	}
+	return -1
 }
 
 // mayAllocate: the contract says `mayalloc` or speaks about the allocation counter itself.
@@ -906,11 +1043,51 @@ func (x *exec) applyIfaceContract(st *pstate, c *Contract, cc *ssa.CallCommon, a
 		}
 		names = append(names, n)
 	}
-	ci := callInfo{names: names, sig: sig, name: cc.Method.Name(), key: c.C.PkgPath + "." + c.C.Key(), tparams: map[string]types.Type{}}
+	// type parameters: those of the function under verification, plus the interface's own parameters
+	// bound to the type arguments of the instance the receiver has
+	tparams := map[string]types.Type{}
+	for k, v := range x.tparams {
+		tparams[k] = v
+	}
+	it := cc.Value.Type()
+	if tp, ok := it.(*types.TypeParam); ok {
+		it = tp.Constraint()
+	}
+	if n, ok := it.(*types.Named); ok && n.TypeArgs().Len() > 0 {
+		tps := n.Origin().TypeParams()
+		for i := 0; i < tps.Len() && i < n.TypeArgs().Len(); i++ {
+			tparams[tps.At(i).Obj().Name()] = n.TypeArgs().At(i)
+		}
+	}
+	ci := callInfo{names: names, sig: sig, name: cc.Method.Name(), key: c.C.PkgPath + "." + c.C.Key(), tparams: tparams}
 	return x.applyContractInfo(st, c, ci, args, argTypes, in)
 }
 
 func (x *exec) dynamicCall(st *pstate, cc *ssa.CallCommon, args []Val, argTypes []types.Type, in ssa.Instruction) Val {
-	unsupp("dynamic call at %s", x.p.Fset.Position(in.Pos()))
-	return nil
+	// a call through a function value whose target is unknown: it may do anything to the heap.
+	// Under a monitor it must not happen with the lock held (it could block or re-enter).
+	if x.monitor != nil && st.held["mu"] {
+		x.emit(st, "nolock."+x.ord[in], "monitor", smt.False, in.Pos(), "call through a function value while holding the monitor lock")
+	}
+	cur := x.env.Next(st.heap)
+	x.env.havocAll(st.heap)
+	nv := x.env.Fresh("next$dyncall", smt.Int)
+	st.heap["next"] = nv
+	st.assume(smt.IGe(nv, cur), "allocation only grows")
+	x.p.Assumptions["calls through function values (callbacks) have arbitrary effects on the heap and return normally"] = true
+	sig := cc.Signature()
+	var results []Val
+	for i := 0; i < sig.Results().Len(); i++ {
+		rt := sig.Results().At(i).Type()
+		rv := x.env.FreshVal("dyncall$ret", x.p.T.SortOf(rt))
+		st.assume(x.p.T.Inv(rv, rt, 0), "type invariant of a callback result")
+		results = append(results, x.wrap(rv, rt))
+	}
+	switch len(results) {
+	case 0:
+		return nil
+	case 1:
+		return results[0]
+	}
+	return Tuple(results)
 }
